@@ -27,7 +27,7 @@ func (c *closer) Close() error { return nil }
 // ---- reference analysis ----------------------------------------------------
 
 type refAnalysis struct {
-	NodeCount, Branches, Actions, Guards                int
+	NodeCount, Branches, Actions, Guards             int
 	Terminal, Orphans, Empty, Missing, Vars, Interps []string
 }
 
@@ -164,14 +164,37 @@ func specGraph(s *core.Spec) (g graph, extra map[string]bool) {
 	return
 }
 
+// readAs: how the rendering language reads a label.  Mermaid reads the entity
+// code #quot; as a double quote, so the names x"y and x#quot;y are two nodes
+// with one reading; what is compared is the number of nodes and edges per reading.
+func readAs(g graph, extra map[string]bool, read func(string) string) (graph, map[string]bool) {
+	out := graph{nodes: map[string]int{}, edges: map[string]int{}}
+	ex := map[string]bool{}
+	for n, c := range g.nodes {
+		out.nodes[read(n)] += c
+	}
+	for e, c := range g.edges {
+		ft := strings.SplitN(e, "\x00", 2)
+		out.edges[read(ft[0])+"\x00"+read(ft[1])] += c
+	}
+	for n := range extra {
+		if _, isNode := out.nodes[read(n)]; !isNode {
+			ex[read(n)] = true
+		}
+	}
+	return out, ex
+}
+
+func mermaidReading(s string) string { return strings.Replace(s, "#quot;", "\"", -1) }
+
 func compareGraph(want graph, extra map[string]bool, got graph, what string) string {
-	for n := range want.nodes {
+	for n, c := range want.nodes {
 		switch got.nodes[n] {
-		case 1:
+		case c:
 		case 0:
 			return fmt.Sprintf("%s: spec node %q is not rendered", what, n)
 		default:
-			return fmt.Sprintf("%s: spec node %q is rendered %d times", what, n, got.nodes[n])
+			return fmt.Sprintf("%s: %d spec node(s) read as %q, rendered %d times", what, c, n, got.nodes[n])
 		}
 	}
 	for n, c := range got.nodes {
@@ -475,6 +498,9 @@ func parseMermaid(src string) (graph, error) {
 
 var hostileNames = []string{"has space", "quo\"te", "arrow->x", "lt<gt>", "amp&", "new\nline", "ünï", "semi;colon", "brace}", "[bracket]", "back\\slash", "dash-ed", "1starts-with-digit", "node", "graph", "50%done", "a%%b", "100%", "%s%d%v", "tab\there"}
 
+// lookalikes: a character and the way some renderer spells it when escaping.
+var lookalikes = [][2]string{{"\"", "#quot;"}, {"\"", "\\\""}, {"<", "&lt;"}, {">", "&gt;"}, {"&", "&amp;"}, {"\n", "\\n"}, {"\"", "&quot;"}, {" ", "_"}, {"-", "_"}, {"#", "#35;"}, {"\"", "'"}}
+
 func rename(a *ref.ASpec, mapping map[string]string) *ref.ASpec {
 	m := func(s string) string {
 		if t, ok := mapping[s]; ok {
@@ -502,8 +528,8 @@ func rename(a *ref.ASpec, mapping map[string]string) *ref.ASpec {
 
 func Run(cfg fw.Config, rec *fw.Rec) {
 	log.SetOutput(io.Discard)
-	rec.Rule = "generated specs (native and source actions, guards, missing / @variable / empty targets, orphans, terminal nodes, empty and absent branch lists, self-loops, parallel branches to one target; with and without the automatic error node) in two strata judged separately: identifier-like node names, and hostile names (spaces, quotes, ->, <, >, &, newlines, unicode, keywords); tools.Analyze is compared with a reference graph analysis, tools.Dot output is tokenised as DOT (ids, quoted strings, nestable HTML strings, attribute lists, ->) and tools.Mermaid output as a flowchart, and node / edge multisets are compared with the spec graph; tools.RenderSpecPage must return without error with one table row per node and per branch; non-trivial = spec with >= 2 nodes and >= 1 branch; distinct by spec"
-	rec.Required = []string{"plain_analysis_ok", "plain_dot_ok", "plain_mermaid_ok", "plain_html_ok", "native_action_rendered", "missing_target_rendered", "variable_target_rendered", "parallel_branches", "self_loop"}
+	rec.Rule = "generated specs (native and source actions, guards, missing / @variable / empty targets, orphans, terminal nodes, empty and absent branch lists, self-loops, parallel branches to one target; with and without the automatic error node) in two strata judged separately: identifier-like node names, and hostile names (spaces, quotes, ->, <, >, &, %, newlines, unicode, keywords; also pairs of names that differ only in a character and its escaped spelling, such as a\"b and a#quot;b); tools.Analyze is compared with a reference graph analysis, tools.Dot output is tokenised as DOT (ids, quoted strings, nestable HTML strings, attribute lists, ->) and tools.Mermaid output as a flowchart, and node / edge multisets are compared with the spec graph; tools.RenderSpecPage must return without error with one table row per node and per branch; non-trivial = spec with >= 2 nodes and >= 1 branch; distinct by spec"
+	rec.Required = []string{"plain_analysis_ok", "plain_dot_ok", "plain_mermaid_ok", "plain_html_ok", "lookalike_names_kept_apart", "native_action_rendered", "missing_target_rendered", "variable_target_rendered", "parallel_branches", "self_loop"}
 	rec.Assume = []string{"DOT and Mermaid subsets as emitted by the tools (the tokenizers accept what Graphviz / Mermaid accept for these constructs)", "the hostile-name stratum is judged separately so a finding there cannot mask the plain stratum"}
 	n := cfg.Pick(6000, 1000000)
 	fw.Parallel(cfg.Workers, n, func(w, i int) {
@@ -528,12 +554,30 @@ func Run(cfg fw.Config, rec *fw.Rec) {
 			src.Branching.Branches = append(src.Branching.Branches, &ref.ABranch{Target: "@t"}, &ref.ABranch{Target: names[0]})
 		}
 		stratum := "plain"
+		lookalike := false
 		if i%4 == 3 {
 			stratum = "hostile"
 			mapping := map[string]string{}
 			for _, nm := range append(names, "missing") {
 				if nm != "start" && r.Intn(2) == 0 {
 					mapping[nm] = hostileNames[r.Intn(len(hostileNames))] + nm
+				}
+			}
+			// some hostile specs: two different names that an escaping renderer may map
+			// to one label (a character and its escaped spelling)
+			if i%16 == 3 {
+				pair := lookalikes[r.Intn(len(lookalikes))]
+				var cands []string
+				for _, nm := range names {
+					if nm != "start" {
+						cands = append(cands, nm)
+					}
+				}
+				if len(cands) >= 2 {
+					k := r.Intn(len(cands) - 1)
+					mapping[cands[k]] = "x" + pair[0] + "y"
+					mapping[cands[k+1]] = "x" + pair[1] + "y"
+					lookalike = true
 				}
 			}
 			a = rename(a, mapping)
@@ -597,7 +641,10 @@ func Run(cfg fw.Config, rec *fw.Rec) {
 			} else if got, perr := parseMermaid(mb.String()); perr != nil {
 				rec.Violation("C20:"+stratum+":mermaid-unparsable", "Mermaid output does not parse: "+perr.Error(), map[string]interface{}{"case": replay, "output": mb.String()})
 				ok = false
-			} else if why := compareGraph(want, extra, got, "mermaid"); why != "" {
+			} else if why := func() string {
+				w, ex := readAs(want, extra, mermaidReading)
+				return compareGraph(w, ex, got, "mermaid")
+			}(); why != "" {
 				cls := "node"
 				if strings.Contains(why, "branch") || strings.Contains(why, "edge") {
 					cls = "edge"
@@ -637,6 +684,9 @@ func Run(cfg fw.Config, rec *fw.Rec) {
 		if ok {
 			if native && an.Actions > 0 {
 				rec.Bucket("native_action_rendered")
+			}
+			if lookalike {
+				rec.Bucket("lookalike_names_kept_apart")
 			}
 			for t := range extra {
 				if strings.HasPrefix(t, "@") {
